@@ -95,7 +95,7 @@ def ann_kinds():
 c01.FILLS.setdefault('ops1', bytes((0xAF, 0x3C, 0x3D, 0x04, 0x05, 0x0C, 0x0D, 0xB7, 0xA7, 0x2F, 0x37, 0x3F, 0x00, 0xD9, 0x08, 0xC9)))
 
 BASE_LAYOUTS = (
-    ('code', 'c'), ('code', 'b'), ('text', 't'), ('const', 's'), ('text', 'w'), ('code', 'g'), ('ops1', 'c'),
+    ('code', 'c'), ('code', 'b'), ('text', 't'), ('const', 's'), ('text', 'w'), ('code', 'g'), ('ops1', 'c'), ('code', 'i'),
 )
 
 
@@ -109,6 +109,11 @@ def allowed(kname, text, fill, btype):
     does not exist, so titles/paragraphs are never '' or '.' (blank and dots-only texts
     belong to instruction-level comments, where the property names them); @bytes is
     only meaningful on an instruction whose bytes it lists."""
+    if btype == 'i' and (kname in ('N-mid', 'icomment', 'multi', '@label-mid', '@ignoreua:m-mid', '@ignoreua:i', '@bytes', 'dot-revbrace')
+                         or kname.startswith(('M', 'dot-colon'))):
+        # an 'i' entry is generated empty (no sub-blocks): it has a header, a start comment, an end comment and
+        # directives on its single address, but no second statement and no instruction comments
+        return False
     if kname in PARAGRAPH_KINDS and text in ('', '.'):
         return False
     if kname == 'title' and text == '.':
@@ -170,7 +175,11 @@ def round_trip(fill, ctl0, s2c=(), s2s=()):
     binfile = os.path.join(d, 'c03_' + fill + '.bin')
     if not os.path.exists(binfile):
         tools.write_file('c03_' + fill + '.bin', data, d)
-    common = ['-o', str(A), '-e', str(A + 16), '-I', 'ListRefs=0'] + list(s2s)
+    # 'NOEND': no -e option, so the terminal 'i' directive becomes a final 'i' entry running to 65536 (the usual
+    # shape of a disassembly made from a snapshot); sna2skool writes nothing for it
+    noend = 'NOEND' in s2s
+    s2s = [x for x in s2s if x != 'NOEND']
+    common = ['-o', str(A)] + ([] if noend else ['-e', str(A + 16)]) + ['-I', 'ListRefs=0'] + list(s2s)
     ctl0f = tools.write_file('c03_0.ctl', ctl0, d)
     r1 = tools.run_tool('sna2skool', common + ['-c', ctl0f, binfile])
     if r1.rc:
@@ -238,6 +247,15 @@ def cases(tier):
                         yield ('S2', fill, ctl, '{}:{}#{}'.format(btype, kname, ti), s2c, ())
                     for s2s in S2S_OPTS[1:]:
                         yield ('S2', fill, ctl, '{}:{}#{}'.format(btype, kname, ti), ('-k',) if keep else (), s2s)
+    # S3: the same annotations in a file whose last entry is a final 'i' entry to 65536 (no -e)
+    for fill, btype in (('code', 'c'), ('text', 't')):
+        for kname in kinds:
+            for ti in ((2, 7) if tier == 'quick' else range(len(TEXTS))):
+                text = TEXTS[ti]
+                if not allowed(kname, text, fill, btype):
+                    continue
+                ctl = annotated_ctl(fill, btype, [(kname, text)])
+                yield ('S3', fill, ctl, '{}:{}#{}/noend'.format(btype, kname, ti), ('-k',) if needs_keep(ctl) else (), ('NOEND',))
     pair_texts = (2, 7, 10) if tier == 'quick' else range(len(TEXTS))
     pair_layouts = BASE_LAYOUTS[:2] if tier == 'quick' else BASE_LAYOUTS
     for fill, btype in pair_layouts:
